@@ -89,9 +89,12 @@ CHECKS = {
              "documented rule (unnamed arguments numbered and verbatim, named trimmed, last binding wins, defaults, literal "
              "undefined parameters, link for a missing template, newline before a block marker), stated without fuel or "
              "expansion path; c04_flat_rule_is_mediawikis_without_trailing_line_breaks and ..._refuted pin the known "
-             "trailing-newline deviation as the only gap on that fragment; c04_if_with_plain_arguments: #if with plain "
-             "arguments gives, under every expansion path, the second argument when the first is not blank, else the third, "
-             "trimmed; both rules are also compared directly with Wtp.expand on generated calls. "
+             "trailing-newline deviation as the only gap on that fragment; c04_if_with_plain_arguments, c04_ifeq_with_plain_arguments, "
+             "c04_switch_with_plain_keyed_cases: under every expansion path #if gives the second argument when the first is not "
+             "blank, else the third; #ifeq the third when the first two are equal (numerically when both are numbers, "
+             "ParserFns.mw_equal), else the fourth; #switch with key=value cases the value of the first case whose key equals "
+             "the first argument, else the last #default value, else nothing; all trimmed; all four rules are also compared "
+             "directly with Wtp.expand on generated calls. "
              "PARTIAL: beyond the flat fragment (nested calls, parser functions, links) equality with the independent MediaWiki "
              "reference semantics is decided per run by harness/gen_wt.py:Ref, not by a refinement theorem.",
         note=TRUST + "regex-based _encode/preprocess_text/_template_to_body are glue under the diff; ASCII whitespace; "
